@@ -9,7 +9,7 @@ CRASHPOINTS = ["meta_invalidated", "dir_removed", "dir_created", "index_created"
                "doc_added@1", "doc_added@439", "doc_added@878", "asset_loaded@1", "asset_loaded@2", "before_commit", "after_commit",
                "after_reload", "before_write_meta", "meta_created_empty", "after_write_meta"]
 RULE = ("histories = prior directory state x injected fault x (clean start | second fault then clean start). Prior states: absent; valid "
-        "current; written by another version; written for other data (a foreign index with the same schema whose documents answer the probe "
+        "current; written by another version (also by a patch / minor / pre-release sibling of the running version, over the current index, a foreign index of the same size, or an index with another layout under the same field names); written for other data (a foreign index with the same schema whose documents answer the probe "
         "phrases with poisoned values, meta claiming an old hash or another version); meta.json missing / empty / truncated at several bytes / "
         "not JSON / JSON of the wrong shape; index directory missing / empty / without tantivy's meta.json / with a garbage one; plus every "
         "state a crash leaves behind. Faults: process abort at each named cfg(anything_verif) crash point (the CRASHPOINT marker and SIGABRT "
@@ -125,8 +125,35 @@ def st_other_version(ctx, home, insp):
     m["version"] = "0.0.1"
     json.dump(m, open(_meta_path(home), "w"))
 
-def build_foreign_template(ctx, insp, path, same_size):
+def version_siblings(v):
+    """Version strings that are NOT this version but close to it: next/previous patch, next minor, a pre-release tag, a patch with one
+    more digit, a truncation (seed C15-g: only major.minor compared). Anything but string equality with the running version means
+    `written by another version`."""
+    parts = v.split(".")
+    out = []
+    try:
+        nums = [int(x) for x in parts]
+    except ValueError:
+        nums = None
+    if nums and len(nums) == 3:
+        out.append("%d.%d.%d" % (nums[0], nums[1], nums[2] + 1))
+        out.append("%d.%d.%d" % (nums[0], nums[1], nums[2] - 1 if nums[2] else 9))
+        out.append("%d.%d.0" % (nums[0], nums[1] + 1))
+        out.append("%d.%d.%d0" % (nums[0], nums[1], nums[2]))
+    out += [v + "-rc.1", v.rsplit(".", 1)[0]]
+    return [x for x in dict.fromkeys(out) if x != v]
+
+def build_foreign_template(ctx, insp, path, same_size, layout=None):
     docs = [{"tokens": q.split(" "), "description": "POISON for " + q, "value": -424242} for q in ctx["probes"]]
+    if layout:
+        tmp = path + ".tmp%d" % os.getpid()
+        r = insp.call({"op": "build_foreign", "dir": tmp, "docs": docs[:3], "layout": layout}, timeout=300)
+        assert "ok" in r, r
+        try:
+            os.rename(tmp, path)
+        except OSError:
+            shutil.rmtree(tmp, ignore_errors=True)
+        return
     if same_size:
         docs += [{"tokens": ["filler%d" % i], "description": "filler %d" % i, "value": i} for i in range(ctx["docs"] - len(docs))]
     tmp = path + ".tmp%d" % os.getpid()
@@ -157,6 +184,22 @@ def st_foreign(kind, same_size=False):
         elif kind == "metaemptyobject":
             open(_meta_path(home), "w").write("{}")
         # kind == "metamissing": no meta.json at all
+    return f
+
+def st_sibling(version, index_kind):
+    """meta.json names a sibling of the running version (and the CURRENT data hash); the index directory is the current one, a foreign one
+    of the same size, or one written with another layout under the same field names (word tokenizer instead of prefix n-grams)."""
+    def f(ctx, home, insp):
+        if index_kind == "valid":
+            st_valid(ctx, home, insp)
+        else:
+            os.makedirs(os.path.join(home, "facts"))
+            name = "foreign-same-size" if index_kind == "foreign" else "foreign-words-layout"
+            tpl = os.path.join(ctx["valid_home"], name)
+            if not os.path.isdir(tpl):
+                build_foreign_template(ctx, insp, tpl, True, "words" if index_kind == "layout" else None)
+            shutil.copytree(tpl, os.path.join(home, "facts", "index"))
+        json.dump({"version": version, "database_hash": ctx["hash"]}, open(_meta_path(home), "w"))
     return f
 
 def st_meta(content):
@@ -199,6 +242,9 @@ def states(ctx):
     S["other-data-same-size-meta-missing"] = st_foreign("metamissing", True)
     S["other-data-same-size-meta-empty"] = st_foreign("metaempty", True)
     S["other-data-same-size-meta-empty-object"] = st_foreign("metaemptyobject", True)
+    for v in version_siblings(ctx["version"]):
+        for kind in ("valid", "foreign", "layout"):
+            S["sibling-version-%s-index-%s" % (v, kind)] = st_sibling(v, kind)
     S["meta-missing"] = st_meta(None)
     S["meta-empty"] = st_meta(b"")
     for k in (1, len(valid_meta) // 2, len(valid_meta) - 1):
@@ -394,6 +440,16 @@ def prepare(binp):
         tk = d.call_many([{"op": "topk", "phrase": q, "k": 2} for q in phrases], timeout=600)
         unamb = [q for q, r in zip(phrases, tk) if "ok" in r and len(r["ok"]) == 2 and r["ok"][0][0] > r["ok"][1][0]]
         probes = unamb[:: max(1, len(unamb) // 120)][:120]
+        # ... and abbreviated phrases (every word cut to a prefix of 4-6 letters: `popul finl`), which only an index with the
+        # shipped layout (prefix n-grams with positions) answers like the in-memory database does
+        abbr = []
+        for q in unamb[3:: max(1, len(unamb) // 150)]:
+            ws = q.split(" ")
+            a = " ".join(w[:max(4, len(w) - 2)][:6] for w in ws)
+            if a != q and a not in abbr:
+                abbr.append(a)
+        tk2 = d.call_many([{"op": "topk", "phrase": q, "k": 2} for q in abbr], timeout=600)
+        probes += [q for q, r in zip(abbr, tk2) if "ok" in r and len(r["ok"]) == 2 and r["ok"][0][0] > r["ok"][1][0]][:40]
         ref = []
         for rep in d.call_many([{"op": "query", "q": q, "describe": True} for q in probes], timeout=600):
             ref.append([rep["descs"][0]["description"], rep["items"][0]["ok"]["v"], rep["items"][0]["ok"]["u"]])
@@ -412,6 +468,7 @@ def prepare(binp):
     with Driver(binp) as d:
         build_foreign_template(ctx, d, os.path.join(valid_home, "foreign"), False)
         build_foreign_template(ctx, d, os.path.join(valid_home, "foreign-same-size"), True)
+        build_foreign_template(ctx, d, os.path.join(valid_home, "foreign-words-layout"), True, "words")
     return ctx
 
 def run(tier, seed):
